@@ -245,7 +245,9 @@ func TestCheck(t *testing.T) {
 		"cancel/deadline before the call, during primaries, during fallbacks; part 3 runs concurrent calls through one client; " +
 		"part 4 (HTTP world) runs the production client eth2wrap.NewMultiHTTP (multi -> lazy first-use initialisation -> go-eth2-client) with a 60 s per-node timeout against 1-3 primary and 0-2 fallback loopback HTTP nodes " +
 		"that answer with node-unique payloads, refuse connections, answer 503 to everything, answer 400/404/503 on the endpoint only, report syncing, and block their handlers on harness gates during the client's first-use initialisation or on the endpoint afterwards; " +
-		"provide-style (NodePeerCount, AttestationData) and submit-style (SubmitAttestations, SubmitProposalPreparations) calls; the caller cancels / hits its deadline while nodes hang. " +
+		"provide-style (NodePeerCount, AttestationData), submit-style (SubmitAttestations, SubmitProposalPreparations) and Proxy (GET / POST) calls; the caller cancels / hits its deadline while nodes hang. " +
+		"Proxy() is a sixth method of parts 1-3 and two methods of part 4: GET and POST requests with 0 B, small and 64 KiB+ bodies; every scripted node reads its copy of the body fully / partially / not at all, when called or only after its gate opened " +
+		"(so the gate order decides who reads first), and a healthy node answers 200 (node id + body hash) only for exactly the request that was sent, else 400. " +
 		"non-trivial = at least 2 nodes were called and an ordering decision mattered (a gate still closed at return, fallbacks consulted, or caller cancelled); distinct = hash of the cell script")
 	r.Assume("scripted nodes honour their context unless flagged ignores_ctx; caller cancellation with a pending node that ignores its context is observed, not judged (forkjoin's join loop cannot return before such a node does)")
 	r.Assume("unavailability per statement = timeout text, context deadline exceeded, syncing text, 502/503/504, ECONNREFUSED, EHOSTUNREACH, net.Error timeouts; 400/404/plain errors are not; " +
@@ -266,7 +268,7 @@ func TestCheck(t *testing.T) {
 	if r.Thorough() {
 		nSample, nBurst = 600000, 20000
 	}
-	nHTTP := 1200
+	nHTTP := 1500
 	if r.Thorough() {
 		nHTTP = 12000
 	}
@@ -289,6 +291,9 @@ func TestCheck(t *testing.T) {
 	r.Require("http/cancel_returned_with_handlers_still_blocked", 100)
 	r.Require("http/first_success_returned_with_other_handlers_blocked", 50)
 	r.Require("http/fallback_consulted_on_unavailability", 30)
+	r.Require("proxy/cells_with_body_and_two_or_more_primaries", 1000)
+	r.Require("proxy/healthy_nodes_that_received_the_intact_request", 500)
+	r.Require("http/proxy/healthy_nodes_that_received_the_intact_request", 50)
 	r.Require("http/cells_all_unavailable_with_syncing_primary_and_live_fallback", 30)
 	r.Require("http/cells_all_unavailable_with_primary_lost_after_initialisation_and_live_fallback", 20)
 
@@ -298,13 +303,16 @@ func TestCheck(t *testing.T) {
 	}
 
 	r.Cases(n, 0, func(c *kit.Case) {
-		if violSeen.Load() >= 40 {
-			r.Count("cells_skipped_after_many_violations", 1)
-			return
-		}
 		idx := c.Idx
 		if !complete { // scaled-down run (mutant self-test): spread over the whole space
 			idx = int(int64(c.Idx) * int64(total) / int64(n))
+		}
+		// a broken tree: stop once a world has produced plenty of violations (each world on its own,
+		// so a defect visible through both clients is reported for both)
+		isHTTP := idx >= nEnum+nEnumCancel+nSample+nBurst
+		if (isHTTP && violSeenHTTP.Load() >= 40) || (!isHTTP && violSeen.Load()-violSeenHTTP.Load() >= 40) {
+			r.Count("cells_skipped_after_many_violations", 1)
+			return
 		}
 		switch {
 		case idx < nEnum:
